@@ -153,7 +153,7 @@ def run(chk):
         if c["dup"] or same_crate:
             designated[tname] = exp["consumer"] if same_crate else exp["provider"]
         if same_crate:
-            designated = {}          # defined in the consumer's own file: no import at all is required
+            designated = {tname: exp["consumer"]}          # designated as the consumer crate's own type: no import at all
         events.append({"lang": lang, "files": fobs, "expected": expected, "single_defs": [d["name"] for d in so["defs"]], "designated": designated})
         meta.append((lang_v, c, fobs, expected))
     ok, matched, tres = common.trace_validate("Trace_C14", events, timeout=900)
@@ -185,6 +185,8 @@ def run(chk):
                 for i in f["imports"]:
                     if not any(g["file"] == i["file"] and i["name"] in g["defs"] for g in fobs):
                         kinds.append("import-of-undefined")
+                    if e["designated"].get(i["name"]) == f["file"] and i["name"] in f["defs"]:
+                        kinds.append("own-type-imported-from-elsewhere")
         for kind in sorted(set(kinds)) or ["unclassified"]:
             chk.mismatch(f"C14/{lang}/{c['form']}/{'renamed' if c['renamed'] else 'plain'}/{'dup' if c['dup'] else 'nodup'}/{kind}",
                          f"{lang}: {kind} for workspace {c}: files {fobs}", {"case": c, "lang": lang}, "Workspace!PartitionOk /\\ ImportsOk", fobs)
